@@ -120,5 +120,41 @@ def main():
         print(f"  corruption: {what:75s} -> {'rejected with ' + clause if hit else 'NOT REJECTED'}")
         ok &= hit
     ok &= len(cases) >= 4
+    # ---- the protocol model: reachability probes (no vacuous invariant) and its trace binding ----------------------------
+    reached = opt_engine.probes()
+    print(f"OptProto.tla: {len(reached)} reachability probes reached: {', '.join(reached)}")
+    from . import optproto
+    rej, _ = optproto.validate(traces)
+    print(f"OptProto.tla: {len(traces)} recorded traces, {len(rej)} rejected (expected 0)")
+    ok &= not rej
+    pcases = []
+    for t in traces:
+        for i, e in enumerate(t["events"]):
+            if e["ev"] == "Step" and e["out"] == "ok" and len(e["rows"]) >= 3 and not any(c[0].startswith("a logged row dropped") for c in pcases):
+                t2 = copy.deepcopy(t)
+                del t2["events"][i]["rows"][1]
+                t2["events"][i]["af"]["loglen"] -= 1
+                for e2 in t2["events"][i + 1:]:
+                    e2["af"]["loglen"] -= 1
+                pcases.append(("a logged row dropped from a step (fewer rows than iterations, not within tolerance)", t2, i))
+            if e["ev"] == "Step" and e["out"] == "ok" and e.get("dis_v") and not any(c[0].startswith("a temporarily") for c in pcases):
+                t2 = copy.deepcopy(t)
+                t2["events"][i]["af"]["vact"] = [k for k in t2["events"][i]["af"]["vact"] if k not in e["dis_v"]]
+                pcases.append(("a temporarily disabled knob still inactive after step() returned", t2, i))
+            if e["ev"] == "Reload" and e["out"] == "ok" and e["rows"] and t["env"]["npts"] >= 2 and not any(c[0].startswith("reload ends") for c in pcases):
+                t2 = copy.deepcopy(t)
+                other = 1 + (e["af"]["curn"] % t["env"]["npts"])
+                t2["events"][i]["af"]["curn"] = other
+                pcases.append(("reload ends on another point than the row's", t2, i))
+            if e["ev"] == "Solve" and e["out"] == "ok" and not any(c[0].startswith("solve returned") for c in pcases):
+                t2 = copy.deepcopy(t)
+                t2["env"]["tolt"] = [[[] for _ in ep] for ep in t2["env"]["tolt"]]
+                pcases.append(("solve returned normally although the oracle finds no point within tolerance", t2, i))
+    prej, _ = optproto.validate([c[1] for c in pcases])
+    for k, (what, _, i) in enumerate(pcases):
+        hit = k in prej and prej[k][0] <= i
+        print(f"  corruption: {what:95s} -> {'rejected at call ' + str(prej[k][0] + 1) if hit else 'NOT REJECTED'}")
+        ok &= hit
+    ok &= len(pcases) >= 3
     print("selftest", "passed" if ok else "FAILED")
     return 0 if ok else 2
